@@ -476,6 +476,9 @@ func (c *checker) oneRun(r runSpec, pool *solver.Pool, dump string) int {
 			if e.Kind == "access" {
 				nacc++
 			}
+			if e.Kind == "write" && strings.HasPrefix(e.Obj, "global:") {
+				nacc++
+			}
 		}
 		if nacc == 0 {
 			c.vacuous = append(c.vacuous, "no access to the shared generator was recorded in RandomID")
